@@ -454,10 +454,10 @@ func c17sortOnce(src string) (out string) {
 }
 
 // a sort of a handful of declarations takes well under a millisecond
-const c17deadline = 1500 * time.Millisecond
+const c17deadline = 4 * time.Second
 
 // after this many sorts that did not return, the remaining ops are not run (each costs the deadline)
-const c17maxHangs = 12
+const c17maxHangs = 8
 
 var c17hangs int
 
@@ -492,7 +492,7 @@ func c17workerMain() {
 		hang := false
 		select {
 		case res = <-done:
-		case <-time.After(c17deadline):
+		case <-time.After(c17deadline + time.Duration(rq.Reps)*50*time.Millisecond):
 			res, hang = []string{"hang"}, true
 		}
 		b, _ := json.Marshal(res)
